@@ -228,6 +228,23 @@ def check_formulas(part, chunks):
                 part.fail("formula-strings:%d" % len(zs), "chemical_formula(%s) = %r, expected %r (every symbol counted once)" % (syms, fs, wants), {"kind": "formula", "zs": list(zs)})
         except Exception as ex:
             part.fail("formula-variant-raise", "chemical_formula variant raised %r for %s" % (ex, zs), {"kind": "formula", "zs": list(zs)})
+        # the atoms in every container an iterable of elements comes in: tuple, object array, a generator, an iterator, a map - and a
+        # molecule's own element list; each atom is counted exactly once whichever it is
+        try:
+            import numpy as _np
+
+            arr = _np.empty(len(els), dtype=object)
+            arr[:] = els
+            forms = {"tuple": tuple(els), "object-array": arr, "generator": (e for e in els), "iterator": iter(list(els)),
+                     "map": map(Element.from_atomic_number, list(zs)), "reversed-iterator": reversed(list(els))}
+            for fname, container in forms.items():
+                part.tr()
+                gotf = chemical_formula(container)
+                if gotf != want:
+                    part.fail("formula-container:%s" % fname, "chemical_formula of the atoms %s given as a %s = %r, expected %r" % ([ELEMENTS[z - 1][0] for z in zs], fname, gotf, want),
+                              {"kind": "formula", "zs": list(zs)})
+        except Exception as ex:
+            part.fail("formula-container-raise", "chemical_formula of a container raised %r for %s" % (ex, zs), {"kind": "formula", "zs": list(zs)})
         part.outcome(("formula", len(set(zs)), len(zs)))
 
 
